@@ -1453,4 +1453,9 @@ def mid_longitude(geom: Geometry) -> float:
 
 def _auto_resolution(g: Geometry) -> float:
     # aim for ~100 points per side of a square
-    return math.sqrt(g.area) * 4 / 100
+    area = g.area
+    if area > 0:
+        return math.sqrt(area) * 4 / 100
+    # lines, rings and points have no area (a zero step would never finish): ~100 points along the length
+    length = g.length
+    return length / 100 if length > 0 else math.inf
